@@ -859,7 +859,8 @@ def simplifiers(op):
 def required_probes(prop, tier):
     return ['re_execution', 'partial_consumption', 'interleaved_generators', 'full_result_checked',
             'count_checked', 'freq_checked', 'empty_filter_query', 'badmix_refused', 'limit_offset_checked',
-            'every_nth_checked', 'sample_checked', 'nonempty_result']
+            'every_nth_checked', 'sample_checked', 'nonempty_result', 'db_relative_path_then_chdir',
+            'exec_on_temporary_database']
 
 
 def evidence_info(prop):
@@ -874,10 +875,14 @@ def evidence_info(prop):
             'real': ['AEIC.missions Filter / Query / CountQuery / FrequentFlightQuery / Database', 'sqlite3 + R*Tree',
                      'schema created by WritableDatabase'],
             'simulated': ['cooperative schedule of result generators (seeded)', 'rows inserted by the harness with plain SQL',
-                          'reference evaluation in Python over the joined tables'],
+                          'reference evaluation in Python over the joined tables',
+                          'SQLite random() (seeded user-defined function registered on every connection)',
+                          'process time zone', 'working directory (relative database path, then chdir)',
+                          'lifetime of the Database object (throw-away objects whose results are consumed later)'],
         },
         'fault_kinds': [],
-        'assumptions': ['SQLite random() is not controllable: sampling is checked for subset, order, sample=1.0 and an 8-sigma size band',
+        'assumptions': ['sampling is checked for subset, order, sample=1.0 and an 8-sigma size band',
+                        'the schedule importer (WritableDatabase.add, property C13) is bypassed',
                         'empty lists as filter values are not generated (meaning unspecified)',
                         'order among equal departure timestamps is unspecified and not compared'],
     }
